@@ -133,10 +133,11 @@ SERVES = {
     "C21": dict(technique="Evm.tla creation rules (collision on code, nonce or storage); scenarios with pre-populated target addresses replayed through every database layer", level=_lvl("everything is compared, with the would-be created address pre-populated with storage / nonce / code / balance, for create transactions, CREATE and CREATE2, behind State, CacheDB, and data inserted into CacheDB."), note=_NOTE, ref="DESIGN.md section 3 C21"),
     "C28": dict(technique="every Evm.tla scenario executed with no inspector, NoOpInspector, GasInspector, TracerEip3155 and a recording inspector; each must equal the specification's prediction", level=_lvl("all five executions are compared with the same prediction."), note=_NOTE, ref="DESIGN.md section 3 C28"),
     "C31": dict(technique="multi-transaction Evm.tla behaviours executed on one reused Evm and on a fresh Evm per transaction; both must equal the specification", level=_lvl("both the reused-Evm and the fresh-Evm-per-transaction executions are compared with the prediction (transient storage, warm sets, logs are per transaction in the specification)."), note=_NOTE + " preverify_transaction / modify_spec_id interleavings are covered by the C02 and C22 engines.", ref="DESIGN.md section 3 C31"),
+    "C25": dict(technique="Evm.tla scenarios (TLC-generated programs of nested calls / creates of every outcome, return-data and output-area handling) executed on revm::Evm with debug assertions, overflow checks and the cfg-guarded instruction-pointer assertion; a panic is a violation (transaction-level part of C25)", level=_lvl("only panics (and with them failed debug assertions / bounds checks) count for C25 here; wrong results are C01's."), note=_NOTE + " Legacy bytecode only; address sanitizing is not used.", ref="DESIGN.md section 3 C25"),
     "C34": dict(technique="Evm.tla access sets (EIP-2929/2930/3651) with snapshot-restore on revert; gas conformance on Berlin..Prague", level=_lvl("gas used is compared on Berlin..Prague scenarios with access lists, reverting frames and repeated accesses; any cold/warm divergence changes gas_used."), note=_NOTE + " EIP-7702 authorities/delegation targets are not modelled.", ref="DESIGN.md section 3 C34"),
 }
 FACETS = {"C07": ["events"], "C08": ["/bal", "status"], "C09": ["gas_used", "refunded", "/161/bal", "/203/bal"],
-          "C34": ["gas_used", "refunded"]}
+          "C34": ["gas_used", "refunded"], "C25": ["panic"]}
 GAS = [100000, 60000, 25000, 300000]
 TGT = [193, 194, 0, 171]
 
@@ -175,6 +176,10 @@ def run(ctx, pid):
     P_WARM = [(193, ["call194"]), (193, ["call194"]), (193, ["probe"]), (194, ["probe"]), (194, ["rev"])]  # access in reverted frames, again later
     P_SINGLE = [(194, ["body"]), (193, ["store", "tstore", "mem", "log", "env", "env2", "arith", "jump", "rdata", "term", "callS", "createS"])]
 
+    # what a caller finds in its return-data buffer and in its output area after calls / creates of every outcome,
+    # then after one more call (a buffer or length carried over from the previous sub-call shows here)
+    P_RDATA = [(194, ["body", "bodyD"]), (193, ["callD", "createS"]), (193, ["callO", "rdata"]), (193, ["rdata"])]
+
     if pid == "C01":
         # every mainnet SpecId in both tiers (a fork-specific slip must not hide behind the rotation);
         # generation runs four TLC processes at a time
@@ -197,6 +202,9 @@ def run(ctx, pid):
         for f in rot(["CANCUN", "BERLIN", "HOMESTEAD"], 1 if q else 3):
             r = planned("c01nested_" + f, f, [193, 194], P_NESTED)
             replay(ctx, res, r, "c01nested_" + f, binary)
+        for f in (["CANCUN"] + rot(["BYZANTIUM", "PRAGUE", "LONDON", "ISTANBUL"], 1) if q else ["BYZANTIUM", "ISTANBUL", "LONDON", "CANCUN", "PRAGUE"]):
+            r = planned("c01rdata_" + f, f, [193, 194], P_RDATA)
+            replay(ctx, res, r, "c01rdata_" + f, binary)
     elif pid == "C07":
         # depth-limit probe: all gas is forwarded before Tangerine Whistle, so 1024 levels are affordable
         for f in rot(["HOMESTEAD", "FRONTIER"], 1):
@@ -282,6 +290,13 @@ def run(ctx, pid):
                         maxtx=2, targets=[193, 194], coinbases=(COINBASE, COINBASE2), rejections=True)
             replay(ctx, res, r, "c31leak_" + f, binary, reuse=1)
             replay(ctx, res, r, "c31leak_" + f, binary, reuse=0)
+    elif pid == "C25":
+        for f in rot(["BYZANTIUM", "CANCUN", "LONDON", "PRAGUE"], 2 if q else 4):
+            r = planned("c25rdata_" + f, f, [193, 194], P_RDATA)
+            replay(ctx, res, r, "c25rdata_" + f, binary, facets=facets, klass="evm.c25")
+        for f in rot(["PRAGUE", "FRONTIER", "ISTANBUL", "SHANGHAI"], 1 if q else 4):
+            r = sim("c25s_" + f, f, ALL, maxsnips=5)
+            replay(ctx, res, r, "c25s_" + f, binary, facets=facets, klass="evm.c25")
     elif pid == "C34":
         for f in rot(["BERLIN", "LONDON", "SHANGHAI", "CANCUN", "PRAGUE"], 2 if q else 5):
             r = planned("c34_" + f, f, [193, 194], P_WARM)
